@@ -30,7 +30,7 @@ import (
 //     excluded (Nominal inherits from the parent; the root is included);
 //   - an excluded directory is walked only if its answer carries the
 //     continuation flag (Docker: some exclusion pattern points below it),
-//     otherwise nothing below it is looked at;
+//     otherwise nothing below it is recorded;
 //   - the scan reports an excluded directory that it walks as a PHANTOM
 //     directory and one that it does not walk as untracked - NEVER as a tracked
 //     directory; an included directory is tracked; a file or link is tracked
@@ -40,7 +40,11 @@ import (
 //     (an included file, link or directory somewhere below it, on either
 //     endpoint) or was synchronized before (the ancestor has a directory at its
 //     path) - and, so that no synchronized file or link is lost, it IS
-//     synchronized in those cases.
+//     synchronized when it holds synchronized content.
+//
+// The reification statement is checked first, the statement about the scan's
+// own report afterwards (so that a counterexample carries the property-level
+// label whenever the property itself is broken).
 
 type vcDecision struct {
 	status ignore.IgnoreStatus
